@@ -182,6 +182,22 @@ class Scratch:
         return False
 
 
+class LayoutFailure(Exception):
+    """A real CLI step used to build a layout (indexGVF, generateIndex, updateIndex) failed: product behaviour,
+    reported by the engines as an outcome of the perturbed execution, never a harness crash."""
+    def __init__(self, stage, exc):
+        super().__init__(f'{stage}: {type(exc).__name__}: {str(exc)[:200]}')
+        self.stage = stage
+        self.exc_name = type(exc).__name__
+
+
+def _cli(stage, f, *a, **k):
+    try:
+        return f(*a, **k)
+    except (Exception, SystemExit) as e:  # pylint: disable=broad-except
+        raise LayoutFailure(stage, e) from e
+
+
 def materialise(case, layout, workdir, tag):
     """Write reference + GVF files for one execution.  Returns (ref, files)."""
     workdir = Path(workdir)
@@ -195,14 +211,22 @@ def materialise(case, layout, workdir, tag):
         # parameters with the real updateIndex.  Without the update the run must refuse the directory.
         idir = workdir / ('_index_' + layout['index_dir'].replace('+', '_'))
         if not (idir / 'metadata.json').exists():
-            cvrun.build_index_dir(ref, idir, foreign_config(case['config']))
+            _cli('generateIndex', cvrun.build_index_dir, ref, idir, foreign_config(case['config']))
             if layout['index_dir'] == 'foreign+update':
-                cvrun.update_index_dir(idir, case['config'])
+                try:
+                    _cli('updateIndex', cvrun.update_index_dir, idir, case['config'])
+                except LayoutFailure as e:
+                    # updateIndex refused to add the pool: the directory then holds no pool for the run's
+                    # parameters and must be refused like a plain 'foreign' one
+                    (idir / '_update_failed').write_text(str(e))
         ref = dict(ref, index_dir=str(idir))
+        if (idir / '_update_failed').exists():
+            ref['index_note'] = 'update-failed'
+
     elif layout.get('index_dir'):
         idir = workdir / '_index'
         if not (idir / 'metadata.json').exists():
-            cvrun.build_index_dir(ref, idir, case['config'])
+            _cli('generateIndex', cvrun.build_index_dir, ref, idir, case['config'])
         ref = dict(ref, index_dir=str(idir))
     d = workdir / tag
     if d.exists():
@@ -215,7 +239,7 @@ def materialise(case, layout, workdir, tag):
         p = d / f"{'c' if f['circ'] else 'v'}{k}.gvf"
         p.write_text(workload.gvf_text(lines, f['circ']))
         if f.get('idx'):
-            cvrun.build_gvf_idx(p)
+            _cli('indexGVF', cvrun.build_gvf_idx, p)
         files.append(p)
     return ref, files, d / 'out.fasta'
 
